@@ -2,3 +2,7 @@ import BalmProofs.Props.C13
 #print axioms Balm.Bfs.loop_terminates
 #print axioms Balm.AttrTerm.loop_terminates
 #print axioms Balm.percIter_fixed
+#print axioms Balm.Props.C04.plain_history_size
+#print axioms Balm.Props.C04.size_le_of_strict
+#print axioms Balm.Impl.mem_reachSet
+#print axioms Balm.Impl.exists_terminal
